@@ -59,6 +59,17 @@ def fixedNextAccum (β step : α) : α :=
   let b := β + step
   if 1 ≤ b then 1 else b
 
+/-- the prologue of `SMCSampler.sample` that fixes the initial minimum step and whether it adapts:
+    `min_step=None, max_n_steps=None` → `(0, False)`; `min_step=None, max_n_steps=m` → `(1/m, True)`;
+    an explicit `min_step` is used as it is and does not adapt -/
+def initMinStep (minStep : Option α) (maxSteps : Option Nat) : α × Bool :=
+  match minStep with
+  | none =>
+    match maxSteps with
+    | none => (0, false)
+    | some m => (1 / ((m : Nat) : α), true)
+  | some s => (s, false)
+
 inductive BetaErr | zeroDivision
   deriving Repr, DecidableEq
 
